@@ -64,8 +64,11 @@ def run(tier, seed):
         for tag, fn in (("jit", calculate_strain_stress), ("py_func", pyf(calculate_strain_stress) if gi % 8 == 0 else None)):
             if fn is None:
                 continue
+            # the forcing frequency of the mode is an argument the identities do not depend on: positive, tiny, zero (static tide) and
+            # negative (retrograde mode) values rotate through the lattice groups
+            freq = [1.0e-5, 1.0e-12, 0.0, -1.0e-5, 3.0e-5][gi % 5]
             for rep in range(2 if tag == "jit" else 1):      # the second call reuses the same input arrays
-                strains, stresses = fn(mk(U), mk(Uth), mk(Uph), mk(Uthth), mk(Uphph), mk(Uthph), Y, lon, col, tim, radius, shear, bulk, 1.0e-5, l)
+                strains, stresses = fn(mk(U), mk(Uth), mk(Uph), mk(Uthth), mk(Uphph), mk(Uthph), Y, lon, col, tim, radius, shear, bulk, freq, l)
             if not all(np.array_equal(a, b) for a, b in zip((Y, radius, shear, bulk), keep)):
                 ck.violation({"clause": "inputs_unmodified", "fn": "calculate_strain_stress"}, "calculate_strain_stress[%s] modified its input arrays" % tag, {})
             heat_r = calculate_volumetric_heating(stresses, strains)
@@ -76,7 +79,7 @@ def run(tier, seed):
                 eh = float(fr(row[10]))
                 got_e, got_s = strains[:, i, 0, 0, 0], stresses[:, i, 0, 0, 0]
                 det = {"impl": tag, "l": l, "sin,cos": [str(fr(th[0])), str(fr(th[1]))], "y": [str(cx(z)) for z in row[1]], "mu": str(cx(row[2])),
-                       "K": str(cx(row[3])), "r": row[4], "U,Uth,Uph,Uthth,Uphph,Uthph": [str(cx(z)) for z in us]}
+                       "K": str(cx(row[3])), "r": row[4], "U,Uth,Uph,Uthth,Uphph,Uthph": [str(cx(z)) for z in us], "frequency": freq}
                 ck.case(("pt", tag, gi, i), True)
                 names = ["rr", "thth", "phph", "rth", "rph", "thph"]
                 sc_e = max(np.max(np.abs(es)), 1e-300)
